@@ -132,7 +132,7 @@ def _drive_traces(args):
         fin = FINALISERS[tid % 3]
         ev = [{'op': 'write', 'n': len(c), 'bytes': list(c)} for c in chunks]
         try:
-            got = drv.run_blocker(chunks, fin)
+            got = drv.run_blocker(chunks, fin, hazards=(tid % 5 == 4))
             ev.append({'op': 'final', 'n': 0, 'bytes': list(got)})
         except BaseException as ex:  # noqa
             ev.append({'op': 'final', 'n': 0, 'bytes': [-1]})
